@@ -4,6 +4,7 @@
    variables (oracles); what is modelled is the ORDER of the checks, the packet-id test, the comparison of the
    decrypted verify token with the token that was sent, and which value becomes the shared secret. *)
 From Coq Require Import List NArith ZArith Bool.
+From GoMC Require Import Model.C18.
 Import ListNotations.
 
 Fixpoint bytes_eqb (a b : list N) : bool :=
@@ -52,3 +53,122 @@ Section EncResponse.
     | None => None
     end.
 End EncResponse.
+
+(* ================================================================== *)
+(* The whole encryption handshake (phase 5)                            *)
+(*   server/auth/auth.go  Encrypt, encryptionRequest                   *)
+(*   bot/login.go         handleEncryptionRequest, loginAuth,          *)
+(*                        genEncryptionKeyResponse, newSymmetricEncryption *)
+(* What a function does to the connection and to the outside world is an event appended to a trace in
+   program order. *)
+(* ================================================================== *)
+Inductive field : Type := FString (s : list N) | FByteArray (b : list N).
+(* the body of a packet: built by pk.Marshal from fields, or received as raw bytes *)
+Inductive pdata : Type := PFields (fs : list field) | PRaw (d : list N).
+(* CFB8.NewCFB8Encrypt(aes(key), iv) / NewCFB8Decrypt(aes(key), iv); SNil = nil interface *)
+Inductive stream : Type := SEnc (key iv : list N) | SDec (key iv : list N) | SNil.
+Inductive ev : Type :=
+| EWrite (p : Z * pdata)                 (* conn.WritePacket(p) *)
+| EReadResponse                          (* the encryption response is read from the connection here *)
+| ESetCipher (enc dec : stream)          (* conn.SetCipher(enc, dec): from here on everything is encrypted *)
+| EAuth (name hash : list N)             (* server: GET hasJoined?username=name&serverId=hash *)
+| EJoin (digest : list N).               (* bot: POST join with serverId = digest *)
+
+Section Handshake.
+  Variables RESP PUB : Type.
+  Variable conn_write : list ev -> bool.          (* does this WritePacket fail (given everything done so far) *)
+  Variable rand_read : Z -> option (list N).      (* rand.Read of n bytes; None = error *)
+  Variables hello_id login_key_id : Z.            (* packetid.ClientboundLoginHello / ServerboundLoginKey *)
+  (* authDigest of the side in question (the ties instantiate it with the TRANSLATED function) *)
+  Variable digest : list N -> list N -> list N -> res (list N).
+
+  (* ---- server: Encrypt(conn, name, serverKey) ---- *)
+  Variable marshal_pub : option (list N).         (* x509.MarshalPKIXPublicKey(&serverKey.PublicKey) *)
+  Variable read_packet : option (Z * list N).
+  Variable scan2 : list N -> option (list N * list N).
+  Variable decrypt : list N -> option (list N).
+  Variable authentication : list N -> list N -> option RESP.
+
+  Definition srv_fail (tr : list ev) : res (list ev * (option RESP * bool)) := Ok (tr, (None, true)).
+
+  (* request out, response in, THEN the cipher (key = IV = the shared secret, both directions), then the
+     session server is asked with the digest of ("", secret, public key) *)
+  Definition srv_encrypt (tr : list ev) (name : list N) : res (list ev * (option RESP * bool)) :=
+    match marshal_pub with
+    | None => srv_fail tr
+    | Some pub =>
+        match rand_read 16 with
+        | None => srv_fail tr
+        | Some token =>
+            let tr1 := tr ++ [EWrite (hello_id, PFields [FString []; FByteArray pub; FByteArray token])] in
+            if conn_write tr1 then srv_fail tr1 else
+            let tr2 := tr1 ++ [EReadResponse] in
+            match encrypt_secret read_packet login_key_id scan2 decrypt token with
+            | None => srv_fail tr2
+            | Some s =>
+                let tr3 := tr2 ++ [ESetCipher (SEnc s s) (SDec s s)] in
+                match digest [] s pub with
+                | Ok h =>
+                    let tr4 := tr3 ++ [EAuth name h] in
+                    match authentication name h with
+                    | Some r => Ok (tr4, (Some r, false))
+                    | None => srv_fail tr4
+                    end
+                | Panic => Panic
+                | OutOfFuel => OutOfFuel
+                end
+            end
+        end
+    end.
+
+  (* ---- bot: handleEncryptionRequest(conn, c, p) ---- *)
+  Variable scan_er : pdata -> option (list N * list N * list N).   (* p.Scan(&er): ServerID, PublicKey, VerifyToken *)
+  Variable session_join : list N -> bool.                          (* the join request fails *)
+  Variable parse_pub : list N -> option PUB.                       (* x509.ParsePKIXPublicKey *)
+  Variable is_rsa : PUB -> bool.                                   (* iPK.( *rsa.PublicKey) succeeds *)
+  Variable rsa_encrypt : Z -> PUB -> list N -> option (list N).    (* the i-th rsa.EncryptPKCS1v15 of the call *)
+
+  (* the response packet: the secret and the ECHOED verify token, both encrypted to the SERVER's key, in this order *)
+  Definition bot_key_response (secret pub token : list N) : res ((Z * pdata) * bool) :=
+    match parse_pub pub with
+    | None => Ok ((0%Z, PFields []), true)
+    | Some pk =>
+        if negb (is_rsa pk) then Panic else
+        match rsa_encrypt 0 pk secret with
+        | None => Ok ((0%Z, PFields []), true)
+        | Some c1 =>
+            match rsa_encrypt 1 pk token with
+            | None => Ok ((0%Z, PFields []), true)
+            | Some c2 => Ok ((login_key_id, PFields [FByteArray c1; FByteArray c2]), false)
+            end
+        end
+    end.
+
+  (* fresh 16-byte key, join request with the digest, response out, THEN the cipher (key = IV = the key) *)
+  Definition bot_handle (tr : list ev) (p : Z * pdata) : res (list ev * bool) :=
+    match rand_read 16 with
+    | None => Panic
+    | Some key =>
+        if negb (aes_key_ok key) then Panic else
+        match scan_er (snd p) with
+        | None => Ok (tr, true)
+        | Some (sid, pub, token) =>
+            match digest sid key pub with
+            | Panic => Panic
+            | OutOfFuel => OutOfFuel
+            | Ok d =>
+                let tr1 := tr ++ [EJoin d] in
+                if session_join d then Ok (tr1, true) else
+                match bot_key_response key pub token with
+                | Panic => Panic
+                | OutOfFuel => OutOfFuel
+                | Ok (resp, true) => Ok (tr1, true)
+                | Ok (resp, false) =>
+                    let tr2 := tr1 ++ [EWrite resp] in
+                    if conn_write tr2 then Ok (tr2, true)
+                    else Ok (tr2 ++ [ESetCipher (SEnc key key) (SDec key key)], false)
+                end
+            end
+        end
+    end.
+End Handshake.
